@@ -30,6 +30,7 @@ def rewrite_lines(
     found_patterns: typ.Set[Pattern] = set()
 
     new_lines = old_lines[:]
+    replacements: typ.List[typ.Tuple[int, int, int, str]] = []
     for match in parse.iter_matches(old_lines, patterns):
         found_patterns.add(match.pattern)
         normalized_pattern = v2patterns.normalize_pattern(
@@ -37,8 +38,13 @@ def rewrite_lines(
         )
         replacement = v2version.format_version(new_vinfo, normalized_pattern)
         span_l, span_r = match.span
-        new_line = match.line[:span_l] + replacement + match.line[span_r:]
-        new_lines[match.lineno] = new_line
+        replacements.append((match.lineno, span_l, span_r, replacement))
+
+    # NOTE: spans refer to the old line. Applying them right to left keeps
+    #   them valid when multiple patterns match on the same line.
+    for lineno, span_l, span_r, replacement in sorted(replacements, reverse=True):
+        cur_line = new_lines[lineno]
+        new_lines[lineno] = cur_line[:span_l] + replacement + cur_line[span_r:]
 
     if set(patterns) == found_patterns:
         return new_lines
